@@ -11,6 +11,7 @@ import (
 	"strings"
 	"syscall"
 
+	"verif/internal/gen"
 	"verif/internal/prng"
 )
 
@@ -146,6 +147,12 @@ func (c *Ctx) Guard(what string, fn func()) (panicked bool) {
 		if r := recover(); r != nil {
 			if hp, ok := r.(harnessPanic); ok {
 				panic(hp)
+			}
+			if be, ok := r.(gen.BudgetExceeded); ok {
+				panicked = true
+				st := string(debug.Stack())
+				c.Violation("runaway/"+what+"/"+panicSite(st), "runaway loop: "+be.What, map[string]interface{}{"stack": trimStack(st)})
+				return
 			}
 			panicked = true
 			st := string(debug.Stack())
